@@ -8,7 +8,7 @@
    scripted UCI sessions `H; ucinewgame; position P; go depth d` are compared with a fresh process running `position P; go depth d`. *)
 From Coq Require Import NArith ZArith List Bool.
 From Coq Require Import String.
-From JV Require Import Gen.Consts Model.Chess Model.Eval Model.TT Model.Search Model.SearchChess Model.Fen Model.Uci Proofs.TTProofs Proofs.SearchFrame Proofs.SearchBalance Proofs.UciLoopProofs.
+From JV Require Import Gen.Consts Model.Chess Model.Eval Model.TT Model.Search Model.SearchChess Model.Fen Model.Uci Proofs.TTProofs Proofs.SearchFrame Proofs.SearchBalance Proofs.UciLoopProofs Proofs.SearchJunk.
 Import ListNotations.
 
 Theorem C18_clear : forall ops h d a b q, probe (table (Clr :: ops)) h d a b q = None.
@@ -30,6 +30,45 @@ Theorem C18_ucinewgame_restores_fresh : forall extra u P input input' g rep,
   uci_step extra u1 P input' = uci_step extra init_ustate P input'.
 Proof. exact ucinewgame_then_position_is_fresh. Qed.
 
+(* the repetition table is cleared by resetting its index, not its contents: nothing a search prints, returns or leaves behind depends on what
+   earlier games left above the index.  Two searches whose tables have the same capacity and agree on the recorded history (the first ri
+   slots) print the same lines, return the same score and end in the same state -- transposition table, PV table, node and poll counters --
+   for every position, depth, table content, poll cadence and stop schedule *)
+Theorem C18_search_ignores_what_earlier_games_left_in_the_history_table : forall pollp stop_at bypass g depth t rt1 rt2 ri,
+  firstn ri rt1 = firstn ri rt2 -> List.length rt1 = List.length rt2 ->
+  match chess_search pollp stop_at bypass g depth t rt1 ri, chess_search pollp stop_at bypass g depth t rt2 ri with
+  | SDone o1 e1 s1, SDone o2 e2 s2 =>
+    o1 = o2 /\ s1 = s2 /\ tbl e1 = tbl e2 /\ pvtab e1 = pvtab e2 /\ pvlen e1 = pvlen e2 /\ nodes e1 = nodes e2 /\ npolls e1 = npolls e2 /\
+    stopping e1 = stopping e2 /\ ridx e1 = ridx e2 /\ firstn (ridx e1) (rtab e1) = firstn (ridx e2) (rtab e2)
+  | SFuel, SFuel => True
+  | _, _ => False
+  end.
+Proof. intros. apply search_junk_independent; assumption. Qed.
+
+(* hence the main-loop model's choice of zeros above the history is immaterial: a search started by `go` behaves as the model says whatever the
+   table holds there (junk of the right length in place of the zeros) *)
+Theorem C18_session_search_is_independent_of_stale_entries : forall extra u depth max_time input junk,
+  List.length junk = (N.to_nat REP_CAPACITY - List.length (u_rep u))%nat ->
+  let stopk : option nat := if (max_time =? 0)%Z then Some O else stop_poll input in
+  match session_search extra u depth max_time input,
+        chess_search (c_pollp extra) (fun k => match stopk with Some s => Nat.leb s k | None => false end) false
+                     (u_game u) depth (u_tt u) (u_rep u ++ junk) (List.length (u_rep u)) with
+  | SDone o1 e1 s1, SDone o2 e2 s2 => o1 = o2 /\ s1 = s2 /\ tbl e1 = tbl e2
+  | SFuel, SFuel => True
+  | _, _ => False
+  end.
+Proof.
+  intros extra u depth max_time input junk L stopk. unfold session_search. fold stopk.
+  pose proof (C18_search_ignores_what_earlier_games_left_in_the_history_table (c_pollp extra)
+    (fun k => match stopk with Some s => Nat.leb s k | None => false end) false (u_game u) depth (u_tt u)
+    (u_rep u ++ repeat 0%N (N.to_nat REP_CAPACITY - List.length (u_rep u))) (u_rep u ++ junk) (List.length (u_rep u))) as H.
+  rewrite !firstn_app, !Nat.sub_diag, !firstn_O, !app_length, repeat_length, L in H. specialize (H eq_refl eq_refl).
+  destruct (chess_search _ _ _ _ _ _ (u_rep u ++ repeat _ _) _) as [o1 e1 s1|], (chess_search _ _ _ _ _ _ (u_rep u ++ junk) _) as [o2 e2 s2|]; try exact H.
+  destruct H as (A & B & C & _). auto.
+Qed.
+
 Print Assumptions C18_clear.
+Print Assumptions C18_search_ignores_what_earlier_games_left_in_the_history_table.
+Print Assumptions C18_session_search_is_independent_of_stale_entries.
 Print Assumptions C18_ucinewgame_restores_fresh.
 Print Assumptions C18_never_stopped_without_input.
